@@ -95,7 +95,8 @@ impl Scenario for Net2 {
         let mut beh = ResponderBehavior { handshake: HandshakeResponder::new(HandshakeResponderConfig { supported_version: ours.clone() }), ..Default::default() };
         let id = pid(0);
         let mut tcx = std::task::Context::from_waker(futures::task::noop_waker_ref());
-        cx.tr.ev("tables", &[ours.values.len() as u64, theirs.values.len() as u64]);
+        let th = |t: &p::handshake::n2n::VersionTable| t.values.iter().map(|(k, v)| k * 31 + v.network_magic % 1000).sum::<u64>();
+        cx.tr.ev("tables", &[ours.values.len() as u64, theirs.values.len() as u64, th(&ours), th(&theirs)]);
         cx.tr.note(|| format!("responder {:?}\ninitiator {:?}", ours, theirs));
         beh.handle_io(InterfaceEvent::Connected(id.clone()));
         // schedule noise around the proposal: housekeeping, other traffic of the same peer
@@ -140,13 +141,106 @@ impl Scenario for Net2 {
     }
 }
 
+/// stack 1: real handshake::Client <-> real handshake::Server::handshake over two real Plexers
+pub struct Net1 {
+    pub n2c: bool,
+}
+impl Scenario for Net1 {
+    fn name(&self) -> &'static str {
+        if self.n2c { "net1-n2c-client-vs-server" } else { "net1-n2n-client-vs-server" }
+    }
+    fn run(&self, cx: &mut RunCx) -> Result<(), Violation> {
+        use crate::engines::net1::*;
+        use pallas_network::miniprotocols::handshake as hs;
+        use pallas_network::multiplexer::Plexer;
+        let magics: Vec<u64> = if cx.ch.chance("one.magic", 1, 2) { vec![764824073] } else { vec![764824073, 1, 2] };
+        // tables as (version -> (magic, variant bits)); the same abstract table builds n2n or n2c data
+        let mut mk = |cx: &mut RunCx| -> Vec<(u64, u64, u64)> {
+            let n = match cx.ch.draw("vt.size.class", 4) { 0 => cx.ch.draw("vt.size.small", 3), 1 => cx.ch.draw("vt.size.mid", 7), _ => cx.ch.draw("vt.size", 17) };
+            let lo = cx.ch.draw("vt.lo", 10);
+            let mut m = std::collections::BTreeMap::new();
+            for _ in 0..n {
+                m.insert(lo + cx.ch.draw("vt.ver", 18), (*cx.ch.pick("vd.magic", &magics), cx.ch.draw("vd.variant", 4)));
+            }
+            m.into_iter().map(|(k, v)| (k, v.0, v.1)).collect()
+        };
+        let ours = mk(cx);
+        let theirs = mk(cx);
+        let n2c = self.n2c;
+        let pcfg = PipeCfg { stall: (cx.ch.draw("cfg.stall", 3), 8), short: (cx.ch.draw("cfg.short", 3), 4), ..Default::default() };
+        cx.tr.ev("tables", &[ours.len() as u64, theirs.len() as u64, ours.iter().map(|x| x.0 * 31 + x.1).sum(), theirs.iter().map(|x| x.0 * 31 + x.1).sum()]);
+        let o2: Vec<(u64, u64)> = ours.iter().map(|x| (x.0, x.1)).collect();
+        let t2: Vec<(u64, u64)> = theirs.iter().map(|x| (x.0, x.1)).collect();
+        let mut reply: Option<Result<(u64, u64), Option<Vec<u64>>>> = None;
+        let reply_ref = &mut reply;
+        run_sim(cx, |sh| async move {
+            let (wa, rb) = pipe("a2b", &sh, &pcfg);
+            let (wb, ra) = pipe("b2a", &sh, &pcfg);
+            let mut pa = Plexer::new(bearer1(ra, wa));
+            let mut pb = Plexer::new(bearer1(rb, wb));
+            let (cch, sch) = (pa.subscribe_client(0), pb.subscribe_server(0));
+            let (ra_, rb_) = (pa.spawn(), pb.spawn());
+            let conf: Result<Option<Result<(u64, u64), Option<Vec<u64>>>>, Violation> = if n2c {
+                let d = |v: u64, m: u64| hs::n2c::VersionData::new(m, match v { 0 => None, 1 => Some(false), _ => Some(true) });
+                let st = hs::n2c::VersionTable { values: ours.iter().map(|x| (x.0, d(x.2, x.1))).collect() };
+                let ct = hs::n2c::VersionTable { values: theirs.iter().map(|x| (x.0, d(x.2, x.1))).collect() };
+                let mut server = hs::N2CServer::new(sch);
+                let mut client = hs::N2CClient::new(cch);
+                let srv = tokio::spawn(chaos(async move { server.handshake(st).await.map(|_| ()).map_err(|e| e.to_string()) }, &sh, (1, 8)));
+                let c = client.handshake(ct).await;
+                let _ = srv.await;
+                match c {
+                    Ok(hs::Confirmation::Accepted(v, data)) => {
+                        // n2c VersionData fields are private: recover the magic from its encoding
+                        let enc = pallas_codec::minicbor::to_vec(&data).unwrap();
+                        let magic = match crate::spec::cbor::parse_one(&enc).map(|i| i.v) {
+                            Ok(crate::spec::cbor::V::U(m)) => m,
+                            Ok(crate::spec::cbor::V::A(xs)) => xs[0].uint().unwrap_or(u64::MAX),
+                            _ => u64::MAX,
+                        };
+                        Ok(Some(Ok((v, magic))))
+                    }
+                    Ok(hs::Confirmation::Rejected(hs::RefuseReason::VersionMismatch(vs))) => Ok(Some(Err(Some(vs)))),
+                    Ok(hs::Confirmation::Rejected(_)) => Ok(Some(Err(None))),
+                    Ok(hs::Confirmation::QueryReply(_)) => Err(Violation::new("negotiation", "net1:unexpected-query-reply", "server answered with QueryReply")),
+                    Err(e) => Err(Violation::new("negotiation", "net1:client-error", e.to_string())),
+                }
+            } else {
+                let d = |v: u64, m: u64| if v < 2 { hs::n2n::VersionData::new(m, v == 1, None, None) } else { hs::n2n::VersionData::new(m, false, Some(1), Some(v == 3)) };
+                let st = hs::n2n::VersionTable { values: ours.iter().map(|x| (x.0, d(x.2, x.1))).collect() };
+                let ct = hs::n2n::VersionTable { values: theirs.iter().map(|x| (x.0, d(x.2, x.1))).collect() };
+                let mut server = hs::N2NServer::new(sch);
+                let mut client = hs::N2NClient::new(cch);
+                let srv = tokio::spawn(chaos(async move { server.handshake(st).await.map(|_| ()).map_err(|e| e.to_string()) }, &sh, (1, 8)));
+                let c = client.handshake(ct).await;
+                let _ = srv.await;
+                match c {
+                    Ok(hs::Confirmation::Accepted(v, data)) => Ok(Some(Ok((v, data.network_magic)))),
+                    Ok(hs::Confirmation::Rejected(hs::RefuseReason::VersionMismatch(vs))) => Ok(Some(Err(Some(vs)))),
+                    Ok(hs::Confirmation::Rejected(_)) => Ok(Some(Err(None))),
+                    Ok(hs::Confirmation::QueryReply(_)) => Err(Violation::new("negotiation", "net1:unexpected-query-reply", "server answered with QueryReply")),
+                    Err(e) => Err(Violation::new("negotiation", "net1:client-error", e.to_string())),
+                }
+            };
+            ra_.abort().await;
+            rb_.abort().await;
+            sh.lock().unwrap().st.progress = true;
+            *reply_ref = conf?;
+            Ok(())
+        })?;
+        judge(cx, "net1", &o2, &t2, reply)?;
+        cx.st.steps += 1;
+        Ok(())
+    }
+}
+
 pub fn def() -> CheckDef {
     CheckDef {
         prop: "C25",
         level: "exploration",
-        batches: vec![batch(Net2, 300_000, 20_000_000, false)],
+        batches: vec![batch(Net2, 80_000, 5_000_000, false), batch(Net1 { n2c: false }, 6_000, 400_000, true), batch(Net1 { n2c: true }, 6_000, 400_000, true)],
         rule: "seeded pairs of version tables (0..16 versions from a sliding pool of 18 numbers, 1 or 3 magics, both VersionData shapes) negotiated by the real responders; oracle: accepted version is common, no higher common version, accepted magic equals both sides' magic; disjoint tables -> Refuse(VersionMismatch(responder versions)); non-trivial = run with a non-neutral choice; distinct = distinct (table sizes, noise) traces",
-        real: vec!["pallas_network2 ResponderBehavior + HandshakeResponder::try_accept_handshake", "protocol::handshake::State::apply"],
+        real: vec!["pallas_network2 ResponderBehavior + HandshakeResponder::try_accept_handshake", "protocol::handshake::State::apply", "pallas_network handshake::{N2NClient,N2CClient}::handshake <-> handshake::{N2NServer,N2CServer}::handshake over two real Plexers"],
         stub: vec!["the initiator is a simulated peer proposing a seeded table", "Interface (events injected directly)"],
         assumptions: vec!["a refusal while a common version exists (e.g. magic mismatch at the highest common version) is allowed: the statement constrains acceptances and the disjoint case only"],
         required: vec!["probe.accepted", "probe.disjoint_refused", "probe.refused_with_common_version"],
